@@ -1,6 +1,75 @@
 -------------------------------- MODULE SemQ --------------------------------
+(***************************************************************************)
+(* L2: rational functions.  A rational argument is the pair <<num, den>>   *)
+(* of its stored numerator and denominator; O[k] is the post-state record  *)
+(* [n |-> [v,..], d |-> [v,..]].  Results of arithmetic must be EXACT and  *)
+(* CANONICAL: denominator positive, gcd(num,den) = 1, zero stored as 0/1.  *)
+(***************************************************************************)
 EXTENDS Naturals, Integers, Sequences, BigZ, Dbl
-FunsQ == {}
-PostQ(f, A, O, r, x) == FALSE
-SigQ(f, A) == FALSE
+
+FunsQ == {"mpq_init", "mpq_clear", "mpq_set", "mpq_set_z", "mpq_set_ui", "mpq_set_si", "mpq_set_d", "mpq_set_num", "mpq_set_den",
+          "mpq_get_num", "mpq_get_den", "mpq_swap", "mpq_canonicalize", "mpq_add", "mpq_sub", "mpq_mul", "mpq_div", "mpq_neg", "mpq_abs",
+          "mpq_inv", "mpq_mul_2exp", "mpq_div_2exp", "mpq_cmp", "mpq_cmp_ui", "mpq_cmp_si", "mpq_cmp_z", "mpq_equal", "mpq_sgn",
+          "mpq_get_d"}
+
+LOCAL SgnI(i) == IF i > 0 THEN 1 ELSE IF i < 0 THEN -1 ELSE 0
+LOCAL Bool(r, c) == (r # 0) = c
+LOCAL I(h) == ZToInt(h)
+Canonical(n, d) == ZSgn(d) = 1 /\ ZGcd(n, d) = "1"            \* zero: gcd(0,d) = d = 1
+(* the canonical representative of n/d, d # 0 *)
+QCanon(n, d) == LET g == ZGcd(n, d)
+                    n1 == IF ZIsNeg(d) THEN ZNeg(n) ELSE n
+                IN  <<ZTDivQ(n1, g), ZTDivQ(ZAbs(d), g)>>
+LOCAL Is(o, q) == o.n.v = q[1] /\ o.d.v = q[2]
+CmpQ(a, b) == ZCmp(ZMul(a[1], b[2]), ZMul(b[1], a[2]))         \* denominators positive
+
+(* r is the double obtained by truncating n/d toward zero (d > 0), when the value lies in the normal exponent range *)
+DIsTruncOfQ(r, n, d) ==
+   IF n = "0" THEN DIsZero(r)
+   ELSE LET a == ZAbs(n)
+            big == ZBitLen(a) - ZBitLen(d) > 1025
+            tiny == ZBitLen(a) - ZBitLen(d) < -1021
+        IN  IF big \/ tiny THEN TRUE                                   \* system dependent per the manual
+            ELSE /\ DIsFinite(r) /\ r[1] = (IF ZIsNeg(n) THEN 1 ELSE 0)
+                 /\ IF r[2] = 0 THEN TRUE                              \* result fell into the subnormal range
+                    ELSE LET m == DMant(r)  e == DExp(r)
+                             lo == IF e >= 0 THEN ZMul(ZShl(m, e), d) ELSE ZMul(m, d)
+                             hi == IF e >= 0 THEN ZMul(ZShl(ZAdd(m, "1"), e), d) ELSE ZMul(ZAdd(m, "1"), d)
+                             x  == IF e >= 0 THEN a ELSE ZShl(a, -e)
+                         IN  ZLe(lo, x) /\ ZLt(x, hi)
+
+SigQ(f, A) == CASE f = "mpq_div" -> A[3][1] = "0"
+                [] f = "mpq_inv" -> A[2][1] = "0"
+                [] f = "mpq_canonicalize" -> A[1][2] = "0"
+                [] OTHER -> FALSE
+
+PostQ(f, A, O, r, x) ==
+   CASE f = "mpq_init" -> Is(O[1], <<"0", "1">>)
+     [] f = "mpq_clear" -> TRUE
+     [] f = "mpq_set" -> Is(O[1], A[2])
+     [] f = "mpq_set_z" -> Is(O[1], <<A[2], "1">>)
+     [] f \in {"mpq_set_ui", "mpq_set_si"} -> Is(O[1], <<A[2], A[3]>>)        \* stored as given (the caller canonicalises)
+     [] f = "mpq_set_d" -> LET m == DSigned(A[2])  e == DExp(A[2]) IN
+                           Is(O[1], IF e >= 0 THEN <<ZShl(m, e), "1">> ELSE QCanon(m, ZPow2(-e)))
+     [] f = "mpq_set_num" -> Is(O[1], <<A[2], A[1][2]>>)
+     [] f = "mpq_set_den" -> Is(O[1], <<A[1][1], A[2]>>)
+     [] f = "mpq_get_num" -> O[1].v = A[2][1]
+     [] f = "mpq_get_den" -> O[1].v = A[2][2]
+     [] f = "mpq_swap" -> Is(O[1], A[2]) /\ Is(O[2], A[1])
+     [] f = "mpq_canonicalize" -> Is(O[1], QCanon(A[1][1], A[1][2]))
+     [] f = "mpq_add" -> Is(O[1], QCanon(ZAdd(ZMul(A[2][1], A[3][2]), ZMul(A[3][1], A[2][2])), ZMul(A[2][2], A[3][2])))
+     [] f = "mpq_sub" -> Is(O[1], QCanon(ZSub(ZMul(A[2][1], A[3][2]), ZMul(A[3][1], A[2][2])), ZMul(A[2][2], A[3][2])))
+     [] f = "mpq_mul" -> Is(O[1], QCanon(ZMul(A[2][1], A[3][1]), ZMul(A[2][2], A[3][2])))
+     [] f = "mpq_div" -> Is(O[1], QCanon(ZMul(A[2][1], A[3][2]), ZMul(A[2][2], A[3][1])))
+     [] f = "mpq_neg" -> Is(O[1], <<ZNeg(A[2][1]), A[2][2]>>)
+     [] f = "mpq_abs" -> Is(O[1], <<ZAbs(A[2][1]), A[2][2]>>)
+     [] f = "mpq_inv" -> Is(O[1], QCanon(A[2][2], A[2][1]))
+     [] f = "mpq_mul_2exp" -> Is(O[1], QCanon(ZShl(A[2][1], I(A[3])), A[2][2]))
+     [] f = "mpq_div_2exp" -> Is(O[1], QCanon(A[2][1], ZShl(A[2][2], I(A[3]))))
+     [] f = "mpq_cmp" -> SgnI(r) = CmpQ(A[1], A[2])
+     [] f \in {"mpq_cmp_ui", "mpq_cmp_si"} -> SgnI(r) = CmpQ(A[1], <<A[2], A[3]>>)      \* second denominator non-zero
+     [] f = "mpq_cmp_z" -> SgnI(r) = CmpQ(A[1], <<A[2], "1">>)
+     [] f = "mpq_equal" -> Bool(r, A[1] = A[2])
+     [] f = "mpq_sgn" -> r = ZSgn(A[1][1])
+     [] f = "mpq_get_d" -> DIsTruncOfQ(r, A[1][1], A[1][2])
 =============================================================================
